@@ -40,4 +40,11 @@ PROPS = {
         "trusted_base": COMMON_TB + ["extract/ translator (go/ast) for Recipients argument lists", "Go slice aliasing not modelled"],
         "assumptions": ["IRI equality (scheme ignored) is an equivalence relation on the addressees' ids (C14)", "embedded addressees carry ids"],
     },
+    "C11": {
+        "level_text": "Lean 4 theorems over ALL value trees (mutual structural induction, arbitrary depth and fan-out): after Clean() no object embedded by pointer along the walked properties, recursively and through lists, carries a non-empty bto/bcc (C11_no_private), and the result differs from the input only there (C11_frame: everything else structurally equal; nil-like list members become nil as CleanRecipients does). Both are proved for every walk table; the actual table (per type: truncated fields, CleanRecipients arguments, delegation to Object.Clean, HasRecipients method set) is regenerated from the Go source on every run and kernel-`decide`d to contain the nine prescribed properties (+object/actor/target for Activity), to truncate exactly bto and bcc, and to contain no unrecognised statement.",
+        "level_note": "Trusted: Lean kernel (propext, Quot.sound), the go/ast translator for Clean() bodies (unknown statements fail closed), Go harness with an independent tree-rewriting oracle. Values are trees (no aliasing/cycles); the semantics of CleanRecipients (IsNil guard + interface assertion) and the JSON writer's omission of empty lists are modelled and tied by the correspondence (full value dumps after Clean() compared with the model's) and a direct serialisation check.",
+        "technique": "Lean 4 proof by mutual structural induction over value trees, parametric in a walk table regenerated from the source and checked by kernel decide; correspondence by differential testing on generated nested values",
+        "trusted_base": COMMON_TB + ["extract/ translator (go/ast) for Clean() bodies", "values are trees: aliasing between embedded objects is not modelled"],
+        "assumptions": ["'an activity' is the transitive Activity type (object, actor, target walked only there)", "values are acyclic"],
+    },
 }
